@@ -16,7 +16,7 @@ function bodies) and where they are (Gen/Canonical.lean, the derive tables). `st
 The hash `H` is a parameter; collision-freedom is the named hypothesis of `id_commits`. The driver runs SHA-256.
 All theorems are for all transactions of the six kinds (`wt`: C01's value set), all chain ids below 2^64.
 -/
-import FuelVerif.Lemmas.TxId
+import FuelVerif.Lemmas.TxIdHistory
 namespace FuelVerif.C03
 open FuelVerif FuelVerif.Canonical FuelVerif.Offsets FuelVerif.TxId
 open FuelVerif.Canonical.TxDesc (env)
@@ -79,29 +79,35 @@ theorem preimage_eq_iff (c c' : Nat) (hc : c < 2 ^ 64) (hc' : c' < 2 ^ 64) (k : 
   rintro ⟨rfl, h⟩
   simp [preimage, stripTx, (apply_eq_iff v (maskOf k) w).mpr h]
 
-/-- **the id cached by precomputation equals the freshly computed one** (chargeable kinds: `CommonMetadata.id`;
-Mint: `MintMetadata.id`), and `id()` then returns it -/
-theorem cached_id_eq_fresh (H : Bytes → Bytes) (chain : Nat) (t t' : Tx) (h : TxId.precompute H chain t = .ok t') :
-    cachedId t' = some (freshId H chain t.kind t.val) ∧ txId H chain t' = freshId H chain t.kind t.val ∧ t'.val = t.val ∧ t'.kind = t.kind := by
-  simp only [TxId.precompute, Tx.precompute] at h
-  split at h
-  · cases h
-  · rename_i common hc
-    cases h
-    simp only [Tx.computeCommon] at hc
-    split at hc
-    · cases hc
-    · split at hc
-      · cases hc
-      · split at hc
-        · cases hc
-        · cases hc
-          simp [cachedId, txId]
+/-- the order of effects of the six `precompute` bodies, regenerated from the Rust sources on every run: the metadata is reset
+BEFORE the id (and everything else) is read from the object, and stored last. Dropping a reset or hoisting a read breaks this. -/
+theorem precompute_resets_first : Tx.stepsOf .script = [.reset, .common, .script, .store] ∧ Tx.stepsOf .create = [.reset, .common, .other, .store] ∧
+    Tx.stepsOf .upgrade = [.reset, .common, .other, .store] ∧ Tx.stepsOf .upload = [.reset, .common, .store] ∧
+    Tx.stepsOf .blob = [.reset, .common, .store] ∧ mintSteps = [.reset, .id, .store] :=
+  ⟨precompute_order.1, precompute_order.2.1, precompute_order.2.2.1, precompute_order.2.2.2.1, precompute_order.2.2.2.2, mint_precompute_order⟩
+
+/-- **the id cached by precomputation equals the freshly computed one** (chargeable kinds: `CommonMetadata.id`; Mint:
+`MintMetadata.id`), and `id()` then returns it — for an object `t` that may ALREADY carry a cache (of older content, or of
+another chain id) when `precompute` is called -/
+theorem cached_id_eq_fresh (H : Bytes → Bytes) (chain : Nat) (t t' : Tx) (hk : t.kind.chargeable = true) (h : TxId.precompute H chain t = .ok t') :
+    cachedId t' = some (freshId H chain t.kind t.val) ∧ txId H chain t' = freshId H chain t.kind t.val ∧ t'.val = t.val ∧ t'.kind = t.kind :=
+  precompute_cached_id H chain t t' hk h
 
 theorem mint_cached_id_eq_fresh (H : Bytes → Bytes) (chain : Nat) (t : MintTx) :
     (t.precompute H chain).cachedId = some (freshId H chain .mint t.val) ∧ (t.precompute H chain).id H chain = freshId H chain .mint t.val ∧
-    (t.precompute H chain).val = t.val := by
-  simp [MintTx.precompute, MintTx.cachedId, MintTx.id]
+    (t.precompute H chain).val = t.val := mint_precompute_cached_id H chain t
+
+/-- **any history**: after ANY sequence of edits through the public mutators (which keep the cache) and precomputes under any chain
+ids, ending with `precompute(chain)`, the cached id and `id()` are the fresh id of the CURRENT content under `chain` -/
+theorem cached_id_current_after_any_history (H : Bytes → Bytes) (ops : List TxOp) (chain : Nat) (t t' : Tx) (hk : t.kind.chargeable = true)
+    (h : runTxOps H t (ops ++ [.precompute chain]) = .ok t') :
+    cachedId t' = some (freshId H chain t'.kind t'.val) ∧ txId H chain t' = freshId H chain t'.kind t'.val :=
+  cached_id_after_history H ops chain t t' hk h
+
+theorem mint_cached_id_current_after_any_history (H : Bytes → Bytes) (ops : List MintOp) (chain : Nat) (t : MintTx) :
+    let t' := (ops ++ [MintOp.precompute chain]).foldl (applyMintOp H) t
+    t'.cachedId = some (freshId H chain .mint t'.val) ∧ t'.id H chain = freshId H chain .mint t'.val :=
+  mint_cached_id_after_history H ops chain t
 
 def chargeableShape : Mask → Bool
   | .pair _ (.pair .keep (.pair _ (.pair _ (.pair .clear (.pair .clear .keep))))) => true
@@ -155,6 +161,13 @@ example : stripTx .script (exTx 1 2 3 4 [5] 6) =
       .unit, .unit] := by decide +kernel
 example : (match TxId.precompute (fun x => x.take 4) 7 { kind := .script, val := exTx 1 2 3 4 [5] 6, metadata := none } with
     | .ok t => cachedId t == some (freshId (fun x => x.take 4) 7 .script (exTx 1 2 3 4 [5] 6))
+    | .error _ => false) = true := by decide +kernel
+
+/-- precompute under chain 7, edit the gas limit, precompute under chain 9 on the SAME object: the cache is that of the new content and chain -/
+example : (match runTxOps (fun x => x) { kind := .script, val := exTx 1 2 3 4 [5] 6, metadata := none }
+      [.precompute 7, .edit (exTx 1 2 3 4 [5] 99), .precompute 9] with
+    | .ok t => cachedId t == some (freshId (fun x => x) 9 .script (exTx 1 2 3 4 [5] 99)) &&
+               cachedId t != some (freshId (fun x => x) 7 .script (exTx 1 2 3 4 [5] 6))
     | .error _ => false) = true := by decide +kernel
 
 end FuelVerif.C03
